@@ -191,7 +191,9 @@ EvSolve(e) ==
            \cup QFail("ids_aligned", AnswersOK(e, LAMBDA j : (~rc.cols[j].gen) \/ e.include_virtual))
            \cup QFail("optimal", (e.solver = "exact" /\ e.enum) => \A k \in DOMAIN e.returned : LET P == PolyPts(rc) IN
                             IF e.returned[k].none THEN P = {} ELSE e.returned[k].x \in ArgMax(rc.objectives[k], P))
-           \cup QFail("cols_cover_leaves", lids \subseteq ColIds(rc.cols))
+           \* (the encoder's own reduction may drop columns - and is not solution preserving, observation O10 -: with try_reduce_before only
+           \* the alignment clauses judge)
+           \cup QFail("cols_cover_leaves", e.reduced \/ lids \subseteq ColIds(rc.cols))
            \cup QFail("model_true", (lids \subseteq ColIds(rc.cols) /\ e.solver = "exact" /\ e.enum /\ ~IsAtom(m) /\ WellDefined(m) /\ NoPrefixed(m) /\ NoByRef(m) /\ Safe(m)) =>
                             \A k \in DOMAIN e.returned : e.returned[k].none \/
                                  Pt(m, [ i \in lids |-> e.returned[k].x[CHOOSE j \in DOMAIN rc.cols : rc.cols[j].id = i] ]) = 1))
